@@ -36,13 +36,16 @@ Definition answer (g : gnfa) (order syms : list nat) (k : nat) (src : word -> bo
      end].
 
 (* ---- the string level (Model/GNFAStr.v) ----
-   op 3: [dfa, schedule, full?, impl string?]   GNFA.from_dfa(d).to_regex()
-   op 4: [nfa, schedule, full?, impl string?]   GNFA.from_nfa(n).to_regex()
+   op 3: [dfa, schedule, mode, impl string?]    GNFA.from_dfa(d).to_regex()
+   op 4: [nfa, schedule, mode, impl string?]    GNFA.from_nfa(n).to_regex()
    The automaton is sent with its rows in the iteration order of the Python dicts and with the
    character codes of Model/RegexLex.v as symbols.  schedule = one candidate order per loop
    iteration (the iteration order of _find_min_connected_node's dict).
+   mode: 0 / 1 = the loop of to_regex under the schedule (1: also check the model's string);
+         2 / 3 = rip along the concatenation of the schedule without looking at the degrees
+                 (used when the implementation's choice could not be reproduced; 3: also check).
    answer: [res [string?, rip order],
-            check of the model's string (when full = 1 and there is one),
+            check of the model's string (when mode is odd and there is one),
             check of the implementation's string (when given)]
    check = [model parser verdict, res (first word on which the NFA the model compiles from the
             string and the source disagree)] *)
@@ -54,11 +57,14 @@ Definition chk_str (syms : list nat) (diff : nfa -> res (option word)) (s : str)
   L [enc_res (fun _ => L []) (parse s);
      enc_res (enc_opt enc_nats) (bind (compile s (Some syms)) diff)].
 
+Definition run_str (g : sg) (sched : list (list nat)) (mode : nat) : res (option str * list nat) :=
+  if Nat.leb 2 mode then Ok (selim g (concat sched), concat sched) else sto_regex g sched.
+
 Definition answer_str (r : res (option str * list nat)) (syms : list nat) (diff : nfa -> res (option word))
-    (full : nat) (impl : option str) : itree :=
+    (mode : nat) (impl : option str) : itree :=
   L [enc_str_res r;
-     match r, full with
-     | Ok (Some s, _), S _ => chk_str syms diff s
+     match r, Nat.odd mode with
+     | Ok (Some s, _), true => chk_str syms diff s
      | _, _ => L []
      end;
      match impl with Some s => chk_str syms diff s | None => L [] end].
@@ -80,13 +86,13 @@ Definition d12 (op : nat) (t : itree) : itree :=
   | 3, L [td; ts; tf; ti] =>
     match dec_dfa td, dec_list dec_nats ts, dec_nat tf, dec_opt dec_nats ti with
     | Some d, Some sched, Some full, Some impl =>
-      answer_str (dfa_to_regex d sched) (d_syms d) (fun m => nfa_dfa_diff m d) full impl
+      answer_str (run_str (sgnfa_of_dfa d) sched full) (d_syms d) (fun m => nfa_dfa_diff m d) full impl
     | _, _, _, _ => bad_input
     end
   | 4, L [tn; ts; tf; ti] =>
     match dec_nfa tn, dec_list dec_nats ts, dec_nat tf, dec_opt dec_nats ti with
     | Some n, Some sched, Some full, Some impl =>
-      answer_str (nfa_to_regex n sched) (n_syms n) (fun m => nfa_diff m n) full impl
+      answer_str (run_str (sgnfa_of_nfa n) sched full) (n_syms n) (fun m => nfa_diff m n) full impl
     | _, _, _, _ => bad_input
     end
   | _, _ => bad_input
